@@ -46,6 +46,7 @@ def pinned_cases():
            'cap_ab': None, 'cap_ba': None, 'regime': 'fair', 'priv_ext': False}
     yield 'two-way', {'cfg': cfg, 'ops': [['send', 'A', 11, 1], ['send', 'B', 5, 2], ['run', [0, 1, 2, 3] * 8],
                                           ['send', 'A', 1, 3], ['pop', 'B']]}
+    yield 'twelve-waiting', {'cfg': cfg, 'ops': [['estab']] + [['send', 'A', 3 + i, i] for i in range(12)] + [['send', 'B', 4, 50]]}
     yield 'zero-length', {'cfg': cfg, 'ops': [['send', 'A', 0, 1], ['send', 'A', 4, 2]]}
     cfg2 = dict(cfg, cap_ab=5, cap_ba=1, regime='bytewise')
     yield 'backpressure', {'cfg': cfg2, 'ops': [['send', 'A', 40, 1], ['run', list(range(40))], ['send', 'B', 9, 2]]}
@@ -84,6 +85,16 @@ def judge(trace, out, expect_all_delivered=True):
             bid, length, result = ev['args']
             if bid in model and (length != len(model[bid]) or result != 'success'):
                 out.fail('finished-args', 'recv_bundle_finished%r for a %d-octet bundle' % (ev['args'], len(model[bid])))
+        # the receive queue as a polling client sees it: what has not been popped, in the order of arrival
+        unpopped = [bid for bid in fin_ids if bid not in [p[0] for p in trace.popped[receiver]]]
+        listed = world.ends[receiver].call('recv_bundle_get_queue')
+        if not hasattr(listed, 'exc') and not world.ends[receiver].sock.closed:
+            if [str(x) for x in listed] != unpopped:
+                out.fail('queue-listing-order' if sorted(str(x) for x in listed) == sorted(unpopped) else 'queue-listing',
+                         'recv_bundle_get_queue() of %s lists %s, the transfers arrived (and are still there) as %s'
+                         % (receiver, [str(x) for x in listed][:14], unpopped[:14]))
+            if len(unpopped) >= 10:
+                trace.labels.add('ten-and-more-waiting')
         # data identity (popped during the run, rest now)
         got = {}
         for bid, res, _seq in trace.popped[receiver]:
